@@ -121,13 +121,18 @@ class RB:
         n = self.s.add("push %s %s %s" % (name, form, self.r(v)), exp, cmp=cmp or self.idx_cmp,
                        sig=sig or ("push:%s@%s" % (form, self.entry)), shape="push:" + val_shape(self.sh, v))
         if expect != "refused":
-            # a top-level collapse over floats keeps the *first* of a run of `==` values (+0.0 / -0.0)
-            if self.float_same and self.term.kind == "collapse" and h.vals and rust_eq(self.sh, v, h.vals[-1]):
-                h.vals.append(h.vals[-1])
-            else:
-                h.vals.append(v)
-            h.last_pushed = v
+            self.record(name, v)
         return k, n
+
+    def record(self, name, v):
+        """the shadow of a successful push of `v` (by any line, also `pushitem`)"""
+        h = self.h[name]
+        # a top-level collapse over floats keeps the *first* of a run of `==` values (+0.0 / -0.0)
+        if self.float_same and self.term.kind == "collapse" and h.vals and rust_eq(self.sh, v, h.vals[-1]):
+            h.vals.append(h.vals[-1])
+        else:
+            h.vals.append(v)
+        h.last_pushed = v
 
     def read(self, name, k, sig=None):
         h = self.h[name]
